@@ -111,6 +111,15 @@ func c05Defects(base *specs.Spec) []c05Defect {
 			}
 		}
 	}
+	// --- versions that never were released, or are older than the oldest supported one,
+	// declared by a document that uses no version-gated feature at all
+	for _, v := range []string{"0.1.0", "0.2.0", "0.0.0", "0.2.9", "0.3", "0.3.1", "v0.2.0"} {
+		v := v
+		mem("version", "spec", "-", fmt.Sprintf("%q on a document without version-gated features", v), func(s *specs.Spec) {
+			strip(s)
+			s.Version = v
+		})
+	}
 	for _, lvl := range c05Levels {
 		lvl := lvl
 		di := -1
@@ -229,6 +238,17 @@ func c05Defects(base *specs.Spec) []c05Defect {
 			mem("hook-null", lvl, el, "null", func(s *specs.Spec) { c05Edits(s, lvl).Hooks[idx(el)] = nil })
 			mem("mount-host-empty", lvl, el, "", func(s *specs.Spec) { c05Edits(s, lvl).Mounts[idx(el)].HostPath = "" })
 			mem("mount-container-empty", lvl, el, "", func(s *specs.Spec) { c05Edits(s, lvl).Mounts[idx(el)].ContainerPath = "" })
+			for _, mt := range []string{"tmpfs", "bind", "none", "proc"} {
+				mt := mt
+				mem("mount-host-empty", lvl, el, "type "+mt, func(s *specs.Spec) {
+					m := c05Edits(s, lvl).Mounts[idx(el)]
+					m.HostPath, m.Type = "", mt
+				})
+				mem("mount-container-empty", lvl, el, "type "+mt, func(s *specs.Spec) {
+					m := c05Edits(s, lvl).Mounts[idx(el)]
+					m.ContainerPath, m.Type = "", mt
+				})
+			}
 			mem("mount-null", lvl, el, "null", func(s *specs.Spec) { c05Edits(s, lvl).Mounts[idx(el)] = nil })
 		}
 		for _, id := range []string{".", "..", "a/b", "/", "a\nb", "\n", strings.Repeat("a", 4096), strings.Repeat("a", 5000)} {
